@@ -79,9 +79,12 @@ build_sim() {
     rm -rf "$tmp"
 }
 
-# prune old caches (keep the 9 most recent of each kind) - disk is limited
+# prune old caches (keep the 20 most recent of each kind, and whatever was used in the last 30 minutes: another
+# check may be running from it) - disk is limited
 prune() {
-    ls -dt "$B"/$1-* 2>/dev/null | tail -n +10 | xargs -r rm -rf
+    ls -dt "$B"/$1-* 2>/dev/null | tail -n +21 | while read -r d; do
+        if [ -n "$(find "$d" -maxdepth 0 -mmin +30 2>/dev/null)" ]; then rm -rf "$d"; fi
+    done || true
 }
 
 (
